@@ -90,7 +90,20 @@ ASSUME LET d == DEKConfig("AESCTRHMAC", H("12161202080c1a10000102030405060708090
 ASSUME EnvelopeParse(H("00000002aabbccdd")) = [ok |-> TRUE, encDEK |-> H("aabb"), payload |-> H("ccdd")]
 ASSUME ~EnvelopeParse(H("00000000aabb")).ok /\ ~EnvelopeParse(H("00000003aabb")).ok /\ ~EnvelopeParse(H("80000001aabb")).ok
 ASSUME ~EnvelopeParse(H("00000001")).ok /\ ~EnvelopeParse(<<>>).ok
-KEK == <<[kt |-> "AESGCM", variant |-> "TINK", id |-> <<1, 2, 3, 4>>, key |-> EK, mkey |-> <<>>, ivLen |-> 0, tagLen |-> 0, hash |-> "", saltLen |-> 0]>>
+KEKKeys == <<[kt |-> "AESGCM", variant |-> "TINK", id |-> <<1, 2, 3, 4>>, key |-> EK, mkey |-> <<>>, ivLen |-> 0, tagLen |-> 0, hash |-> "", saltLen |-> 0]>>
+KEK == [keys |-> KEKKeys, kind |-> "tink", padTo |-> 0]
+PAD(n) == [keys |-> KEKKeys, kind |-> "padded", padTo |-> n]
+\* size-controlled remote: exactly padTo bytes; the maximum Encrypt emits (4096) must open, 4097 may be refused
+ASSUME LET dek == H("1a10" \o "0f0e0d0c0b0a09080706050403020100")
+           c   == RemoteSeal(PAD(4096), Zeros(12), dek)
+           ct  == EnvelopeSeal(PAD(4096), Zeros(12), "AESGCM", dek, Rep(7, 12), <<1, 2>>, <<>>)
+           big == EnvelopeSeal(PAD(4097), Zeros(12), "AESGCM", dek, Rep(7, 12), <<1, 2>>, <<>>)
+       IN /\ Len(c) = 4096 /\ RemoteOpen(PAD(4096), c) = <<TRUE, dek>>
+          /\ ~RemoteOpen(PAD(4096), [c EXCEPT ![4096] = 1])[1] /\ ~RemoteOpen(PAD(4096), Take(c, 4095))[1]
+          /\ Take(ct, 4) = <<0, 0, 16, 0>>
+          /\ EnvelopeOpen(PAD(4096), "AESGCM", ct, <<>>) = <<TRUE, <<1, 2>>>>
+          /\ ~EnvelopeOpen(PAD(4097), "AESGCM", big, <<>>)[1]
+          /\ EnvelopeOpenMax(PAD(4097), "AESGCM", big, <<>>, EnvelopeNoBound) = <<TRUE, <<1, 2>>>>
 ASSUME LET dek == H("1a10" \o "0f0e0d0c0b0a09080706050403020100")
            ct  == EnvelopeSeal(KEK, Zeros(12), "AESGCMSIV", dek, Rep(255, 12), <<7, 7, 7>>, <<1>>)
        IN /\ Take(ct, 4) = <<0, 0, 0, 5 + 12 + 18 + 16>>
